@@ -210,19 +210,33 @@ __CPROVER_requires(0) /* must never be called from code under contract */
 __CPROVER_assigns()
 __CPROVER_ensures(1)
 ;
+/* ghost record of a replaced conversion call (switched on only by the forwarder unit): "a conversion with exactly these
+ * arguments returned g_conv_ret".  In enforcing units g_conv_on is false and the clauses are vacuous. */
+bool g_conv_on;
+uint64_t g_conv_ret, g_conv_ticks, g_conv_old, g_conv_new;
+uint64_t *g_conv_remainder;
+#define MATH_GHOST_RESET() do { GHOST_RESET_COMMON(); g_conv_on = false; } while (0)
+
 AWS_STATIC_IMPL uint64_t
     aws_timestamp_convert_u64(uint64_t ticks, uint64_t old_frequency, uint64_t new_frequency, uint64_t *remainder)
 __CPROVER_requires(old_frequency > 0 && new_frequency > 0)
 __CPROVER_requires(old_frequency <= CONV_FREQ_MAX && new_frequency <= CONV_FREQ_MAX)
 __CPROVER_requires(remainder == NULL || __CPROVER_is_fresh(remainder, sizeof(*remainder)))
 __CPROVER_assigns(remainder != NULL : *remainder)
+__CPROVER_assigns(g_conv_on : g_conv_ret, g_conv_ticks, g_conv_old, g_conv_new, g_conv_remainder)
 __CPROVER_ensures(RET != UINT64_MAX ==> W128(RET) * old_frequency <= CONV_E && CONV_E < (W128(RET) + 1) * old_frequency)
 __CPROVER_ensures(RET == UINT64_MAX ==> CONV_E >= W128(UINT64_MAX) * old_frequency)
 __CPROVER_ensures(remainder != NULL && !(new_frequency < old_frequency && old_frequency % new_frequency == 0) ==> *remainder == 0)
 __CPROVER_ensures(remainder != NULL && new_frequency < old_frequency && old_frequency % new_frequency == 0 ==>
                   *remainder < old_frequency / new_frequency &&
                   W128(ticks) == W128(RET) * (old_frequency / new_frequency) + *remainder)
+__CPROVER_ensures(g_conv_on ==> g_conv_ret == RET && g_conv_ticks == ticks && g_conv_old == old_frequency &&
+                  g_conv_new == new_frequency && g_conv_remainder == remainder)
 ;
+/* The enum front end is a forwarder: its contract says that the result IS the result of the general conversion called
+ * with (timestamp, (uint64_t)convert_from, (uint64_t)convert_to, remainder) - whose contract above then gives the
+ * arithmetic meaning for the unit frequencies 1, 10^3, 10^6, 10^9.  (Restating the arithmetic clauses here would ask the
+ * SAT back end for the equivalence of two 128-bit multiplier networks, which it does not decide.) */
 AWS_STATIC_IMPL uint64_t aws_timestamp_convert(
     uint64_t timestamp,
     enum aws_timestamp_unit convert_from,
@@ -233,14 +247,11 @@ __CPROVER_requires(convert_from == AWS_TIMESTAMP_SECS || convert_from == AWS_TIM
 __CPROVER_requires(convert_to == AWS_TIMESTAMP_SECS || convert_to == AWS_TIMESTAMP_MILLIS ||
                    convert_to == AWS_TIMESTAMP_MICROS || convert_to == AWS_TIMESTAMP_NANOS)
 __CPROVER_requires(remainder == NULL || __CPROVER_is_fresh(remainder, sizeof(*remainder)))
+__CPROVER_requires(g_conv_on)
 __CPROVER_assigns(remainder != NULL : *remainder)
-__CPROVER_ensures(RET != UINT64_MAX ==> W128(RET) * (uint64_t)convert_from <= W128(timestamp) * (uint64_t)convert_to &&
-                  W128(timestamp) * (uint64_t)convert_to < (W128(RET) + 1) * (uint64_t)convert_from)
-__CPROVER_ensures(RET == UINT64_MAX ==> W128(timestamp) * (uint64_t)convert_to >= W128(UINT64_MAX) * (uint64_t)convert_from)
-__CPROVER_ensures(remainder != NULL && convert_to >= convert_from ==> *remainder == 0)
-__CPROVER_ensures(remainder != NULL && convert_to < convert_from ==>
-                  *remainder < (uint64_t)convert_from / (uint64_t)convert_to &&
-                  W128(timestamp) == W128(RET) * ((uint64_t)convert_from / (uint64_t)convert_to) + *remainder)
+__CPROVER_assigns(g_conv_ret, g_conv_ticks, g_conv_old, g_conv_new, g_conv_remainder)
+__CPROVER_ensures(g_conv_ret == RET && g_conv_ticks == timestamp && g_conv_old == (uint64_t)convert_from &&
+                  g_conv_new == (uint64_t)convert_to && g_conv_remainder == remainder)
 ;
 
 #endif
